@@ -483,13 +483,13 @@ theorem wrap64_idem (a : Int) : wrap64 (wrap64 a) = wrap64 a := by
 
 structure GenSpec (cfg : Cfg) (date : Int) (prior : St) (bi : Builtins) (g : GS) : Prop where
   reex : reexec cfg.feeOn prior g.incl = some (g.st, g.incl.map (·.status), g.trace)
-  split : ∃ gp ents, Inv cfg prior (builtinsCost bi.list) gp ∧ g.incl = gp.incl ++ ents ∧ Sub ents bi.list ∧
+  split : ∃ gp ents, Inv cfg date prior (builtinsCost bi.list) gp ∧ g.incl = gp.incl ++ ents ∧ Sub date ents bi.list ∧
             (∀ e ∈ ents, e.p.txn.sender = cfg.miner)
   bcosts : ∀ b ∈ bi.list, b.2.cost.isSome
 
 theorem poolPhase_inv (cfg : Cfg) (date : Int) (prior : St) (pool : List PTxn) (bi : Builtins) (fuel : Nat) :
-    Inv cfg prior (builtinsCost bi.list) (poolPhase cfg date prior pool bi fuel).1 := by
-  have h0 : Inv cfg prior (builtinsCost bi.list) (GS.init prior (builtinsCost bi.list)) :=
+    Inv cfg date prior (builtinsCost bi.list) (poolPhase cfg date prior pool bi fuel).1 := by
+  have h0 : Inv cfg date prior (builtinsCost bi.list) (GS.init prior (builtinsCost bi.list)) :=
     Inv_init cfg date prior _ (by rw [builtinsCost_eq, wrap64_idem])
   have h1 := iterate_inv pool h0
   unfold poolPhase
